@@ -206,6 +206,16 @@ ForeignOnlyAdds(s, s2, w, ex) ==
   /\ \A k \in DOMAIN wr2.outs : k \notin DOMAIN wr.outs => wr2.outs[k].st = "Unconfirmed"
   /\ \A t \in DOMAIN wr.txs : t \in DOMAIN wr2.txs /\ wr2.txs[t].ty = wr.txs[t].ty
                                  /\ wr2.txs[t].conf = wr.txs[t].conf
+\* C18: a step that creates or changes a transaction context never puts a Reverted output among its
+\* inputs.  A step may refresh first (init_send_tx as the harness and the CLI drive it), so the status
+\* that counts is the one the output has when the step is over: still Reverted, or - for a step that
+\* selects and locks at once without refreshing (norefresh) - Reverted before and Locked after.
+NoRevertedSelected(s, s2, norefresh) ==
+  \A w \in (DOMAIN s.w) \cap (DOMAIN s2.w) : \A sl \in DOMAIN s2.w[w].ctxs :
+     \A k \in s2.w[w].ctxs[sl].ins \ (IF sl \in DOMAIN s.w[w].ctxs THEN s.w[w].ctxs[sl].ins ELSE {}) :
+        (k \in DOMAIN s.w[w].outs /\ k \in DOMAIN s2.w[w].outs) =>
+           /\ s2.w[w].outs[k].st # "Reverted"
+           /\ ~(norefresh /\ s.w[w].outs[k].st = "Reverted" /\ s2.w[w].outs[k].st = "Locked")
 ReceiveExactlyOnce(s, s2, w, sl, amt, acct) ==
   LET wr == s.w[w]  wr2 == s2.w[w]
       newO == (DOMAIN wr2.outs) \ (DOMAIN wr.outs)
